@@ -185,7 +185,7 @@ def build_plan(tier, rng):
             blocks.append({"site": ag.SITES[(di + i) % 11], "conf": True, "what": "conforming", "tokens": ag.instance(ty, rng)})
         for i in range(8):
             toks, what, balanced = ag.deviate(ag.instance(ty, rng), rng)
-            b = {"site": ag.SITES[(di + 8 + i) % 11], "conf": False, "what": what, "tokens": toks}
+            b = {"site": ag.SITES[(di + 8 + i) % 11], "conf": what == "comment", "what": what, "tokens": toks}
             (blocks if balanced else single).append(b)
         rng.shuffle(blocks)
         plan.add_doc(decls, None, blocks, False, f"def{di}/infile")
@@ -202,6 +202,8 @@ def build_plan(tier, rng):
             raw = [{"site": ag.SITES[(di + i) % 11], "conf": False, "what": "undescribed",
                     "tokens": rng.choice([["RAW", "1", "0x1FFFFFFFF", "4294967297", "0.1", "-7", "1e30", '"s"', "idnt", "/begin", "B", "2", "/begin", "C", "/end", "C", "/end", "B"],
                                           ["1", "2", '"x"'], [], ["/begin", "Q", "/end", "Q"], ["TAG_ONLY"],
+                                          ["RAW", "/begin", "B", "1", "/end", "B", "/* c */", "/begin", "B", "2", "/end", "B", "// c\n"],
+                                          ["/* c */", "RAW", "1", "/* c */"],
                                           ["X", "18446744073709551615", "-9223372036854775808", "0xFFFFFFFFFFFFFFFF", "123456789.123456789"]])}
                    for i in range(6)]
             plan.add_doc(None, None, raw, False, f"def{di}/no-definition")
